@@ -409,6 +409,14 @@ func (n *Node) shutdown() error {
 // Close releases the node.
 func (n *Node) Close() error { return n.shutdown() }
 
+// ArmStateStoreCrash: the next k durability units of the STATE STORE (single
+// Put/Delete, batch commit) are applied, then the process "dies": every later
+// write to either store fails. EndCrashEpisode reports whether the point was
+// reached; the caller then Restarts the node on what survived.
+func (n *Node) ArmStateStoreCrash(k int) { memDriver.ArmCrash("statestore", k) }
+
+func (n *Node) EndCrashEpisode() (crashed bool, units int) { return memDriver.Disarm() }
+
 // Restart closes every component and re-opens them on the same storages
 // (localstore.New incl. its gcSize repair, chunkinfo.New + InitChunkInfo), the
 // way a node process restart does.
